@@ -612,18 +612,19 @@ CODE_FORMS = ["{r}", "call {r}(x)", "x = {r}", "{r}:{r}", "use {r}, only: y", "[
 def gen_code_text(rng, refs):
     """a one-paragraph text with 1-2 code spans (single or double backticks) between / next to running text that has
     references of its own: -> [("plain", text) | ("code", content, ticks)]; the span contents hold references in
-    documented spellings (to existing, hidden and absent things alike)"""
+    documented spellings (to existing, hidden and absent things alike).  The joiners between running text and spans never
+    put `(` behind a `]` (that would be Markdown's own `[text](url)` syntax swallowing the span)"""
     pieces = []
     n_code = rng.choice([1, 1, 2])
     if rng.random() < 0.8:
-        pieces.append(("plain", render_text(gen_text(rng, refs)) + rng.choice([" ", " in ", ", e.g. ", "("])))
+        pieces.append(("plain", render_text(gen_text(rng, refs)) + rng.choice([" ", " in ", ", e.g. ", " - "])))
     for i in range(n_code):
         if i:
-            pieces.append(("plain", rng.choice([" and ", ", ", " [[", " or " + render_text(gen_text(rng, refs)) + " vs. "])))
+            pieces.append(("plain", rng.choice([" and ", ", ", " / ", " or " + render_text(gen_text(rng, refs)) + " vs. "])))
         r = G.render_ref(rng.choice(refs)[0])
         pieces.append(("code", rng.choice(CODE_FORMS).replace("{r}", r), rng.choice(["`", "`", "``"])))
     if rng.random() < 0.7:
-        pieces.append(("plain", rng.choice([" ", ") ", ": ", ", see "]) + render_text(gen_text(rng, refs))))
+        pieces.append(("plain", rng.choice([" ", " - ", ": ", ", see "]) + render_text(gen_text(rng, refs))))
     if pieces[0][0] == "plain":
         pieces[0] = ("plain", pieces[0][1].lstrip())
     return [x for x in pieces if x[0] == "code" or x[1]]
@@ -867,7 +868,7 @@ def conv_stream(ford, drv, rng, n_projects, rep, tables, stats, replay_case=None
                 compare_warnings(rep, stats, model_w, printed, case, f"the text {text!r} in context {ckind}")
                 # oracle (from the statement): every span is displayed with its content exactly as written, in order
                 if exc is None:
-                    shown = [x for x in (html_pieces(html) or [("?", html)]) if x[0] in "CK?"]
+                    shown = [("K", x) if "<" in x else ("C", htmllib.unescape(x)) for x in CODE_RE.findall(html)]
                     want = [("C", x[1]) for x in pieces if x[0] == "code"]
                     if [tuple(x) for x in shown] != want:
                         rep.failing_input(dict(case, stream="code", form="span-in-text",
